@@ -206,3 +206,76 @@ def getter_battery(prop, db, stored, cfg, counters, filters=(None, "m", "n", "zz
             n += 7 + len(TAGKEY_SELECTIONS) + len(FIELD_KEYS)
     counters["getter_reads"] += n
     return out
+
+
+# ---------------------------------------------------------------------------------------------
+# C06: every answer the index can give vs a freshly built index over the same contents
+
+
+def fresh_index(stored):
+    from tinyflux import Point
+    from tinyflux.index import Index
+
+    pts = []
+    for t, m, tags, fields in stored:
+        p = Point()
+        p.time, p.measurement, p.tags, p.fields = t, m, dict(tags), dict(fields)
+        pts.append(p)
+    idx = Index()
+    idx.build(pts)
+    return idx
+
+
+def _norm(v):
+    if isinstance(v, (set, frozenset)):
+        return sorted(v, key=repr)
+    if isinstance(v, dict):
+        return {k: _norm(x) for k, x in v.items()}
+    return v
+
+
+def index_answers(idx, vocab_built, measurements=(None, "m", "n", "zz")):
+    """All answers of an Index, as a list of (label, value) pairs."""
+    out = []
+    for label, q in vocab_built:
+        r = call(idx.search, q)
+        if r[0] == "ret":
+            r = ("ret", sorted(r[1].items), getattr(r[1], "_exact", None))
+        out.append((("search", label), r))
+    out.append((("get_measurements",), _norm(call(idx.get_measurements))))
+    out.append((("len",), call(len, idx)))
+    out.append((("empty",), call(lambda: idx.empty)))
+    if len(idx):
+        out.append((("latest_time",), call(lambda: idx.latest_time)))
+    for m in measurements:
+        out.append((("get_tag_keys", m), _norm(call(idx.get_tag_keys, m))))
+        out.append((("get_field_keys", m), _norm(call(idx.get_field_keys, m))))
+        for ks in TAGKEY_SELECTIONS:
+            r = call(idx.get_tag_values, list(ks), m)
+            out.append((("get_tag_values", m, tuple(ks)), _norm(r) if r[0] == "exc" else ("ret", _norm(r[1]))))
+        for k in FIELD_KEYS:
+            out.append((("get_field_values", m, k), call(idx.get_field_values, k, m)))
+        out.append((("get_timestamps", m), call(idx.get_timestamps, m)))
+    return out
+
+
+def index_equiv(prop, db, stored, vocab, counters, tag=""):
+    """Compare the database's (valid) index with a rebuilt one; returns violations."""
+    out = []
+    if not db.index.valid:
+        return out
+    counters["index_equivalence_checks"] += 1
+    built = [(qast.shape(a), qast.build(a)) for a in vocab]
+    live = index_answers(db.index, built)
+    fresh = index_answers(fresh_index(stored), built)
+    seen = set()
+    for (la, a), (lb, b) in zip(live, fresh):
+        counters["index_answers_compared"] += 1
+        if a != b:
+            kind = la[0] + ("|shape=" + la[1] if la[0] == "search" else "")
+            sig = f"{prop}|index-drift|{kind}{tag}"
+            if sig in seen:
+                continue
+            seen.add(sig)
+            out.append(viol("index-equals-rebuild", sig, observed=a, expected=b, probe=la, kind="state"))
+    return out
